@@ -23,6 +23,21 @@ theorem bind_ok {m : M σ α} {f : α → M σ β} {s : σ} {b : β} {s'' : σ}
   | panic s' => rw [hm] at h; cases h
   | fuel s' => rw [hm] at h; cases h
 
+theorem bind_of_ok {m : M σ α} {f : α → M σ β} {s s' : σ} {a : α} (h : m s = .ok a s') :
+    (m >>= f) s = f a s' := by
+  show (match m s with | .ok a s' => f a s' | .panic s' => .panic s' | .fuel s' => .fuel s') = _
+  rw [h]
+
+theorem bind_of_panic {m : M σ α} {f : α → M σ β} {s s' : σ} (h : m s = .panic s') :
+    (m >>= f) s = .panic s' := by
+  show (match m s with | .ok a s' => f a s' | .panic s' => .panic s' | .fuel s' => .fuel s') = _
+  rw [h]
+
+theorem bind_of_fuel {m : M σ α} {f : α → M σ β} {s s' : σ} (h : m s = .fuel s') :
+    (m >>= f) s = .fuel s' := by
+  show (match m s with | .ok a s' => f a s' | .panic s' => .panic s' | .fuel s' => .fuel s') = _
+  rw [h]
+
 theorem Triple.bind {P : σ → Prop} {m : M σ α} {R : α → σ → Prop} {f : α → M σ β} {Q : β → σ → Prop}
     (h1 : Triple P m R) (h2 : ∀ a, Triple (R a) (f a) Q) : Triple P (m >>= f) Q := by
   intro s b s'' hp hb
